@@ -60,17 +60,43 @@ func c18Expr(e ast.Expr) string {
 	return fmt.Sprintf("%T", e)
 }
 
-// c18Pair judges (lineExpr, posExpr): "<X>.Lline" with "<X>.Lpos", or "<X>.Line" with "<X>.Pos", or 0 with 0.
+// c18Pair judges (lineExpr, posExpr): established (0) for "<X>.Lline" with "<X>.Lpos" (or the given
+// suffixes) of ONE base, or 0 with 0; refuted (1) when position fields are used in a wrong
+// arrangement — swapped, taken from different tokens, another field of the token (byte offset,
+// PrefixNewlines), or arithmetic on them; unknown (2) for any other shape (locals, helper calls): a
+// behaviour-preserving rewrite may produce those, they break nothing.
 func c18Pair(line, pos string, sufL, sufP string) (int, string) {
 	d := line + " / " + pos
 	if line == "0" && pos == "0" {
 		return 0, d
 	}
-	if strings.HasSuffix(line, sufL) && strings.HasSuffix(pos, sufP) &&
-		strings.TrimSuffix(line, sufL) == strings.TrimSuffix(pos, sufP) {
-		return 0, d
+	okL, okP := strings.HasSuffix(line, sufL), strings.HasSuffix(pos, sufP)
+	if okL && okP {
+		if strings.TrimSuffix(line, sufL) == strings.TrimSuffix(pos, sufP) {
+			return 0, d
+		}
+		return 1, d // two different tokens / objects
 	}
-	return 1, d
+	posFields := []string{".Lline", ".Lpos", ".Line", ".Pos", ".PrefixNewlines"}
+	mentions := func(e string) bool {
+		for _, f := range posFields {
+			if strings.Contains(e, f) {
+				return true
+			}
+		}
+		return false
+	}
+	arith := func(e string) bool { return strings.ContainsAny(e, "+-*/%") && mentions(e) }
+	wrong := func(e, want string) bool { // a bare selector of a position field other than the wanted one
+		if !mentions(e) || strings.ContainsAny(e, "+-*/%(") {
+			return false
+		}
+		return !strings.HasSuffix(e, want)
+	}
+	if arith(line) || arith(pos) || wrong(line, sufL) || wrong(pos, sufP) {
+		return 1, d
+	}
+	return 2, d
 }
 
 func c18Extract(out string) int {
@@ -196,6 +222,15 @@ func c18Extract(out string) int {
 				v, d := c18Pair(line, pos, sufL, sufP)
 				add(ck, name, v, d)
 			case *ast.CallExpr:
+				if fi.pkg == "interpreter" && fn == "ecalDebugger.VisitState" {
+					for i := 0; i+1 < len(x.Args); i++ {
+						src := c18Expr(x.Args[i])
+						if strings.HasSuffix(src, ".Token.Lsource") {
+							v, d := c18Pair(c18Expr(x.Args[i+1]), src, ".Token.Lline", ".Token.Lsource")
+							add(7, "break point key in "+fi.pkg+"."+fn, v, d)
+						}
+					}
+				}
 				if c18Expr(x.Fun) != "fmt.Sprintf" || len(x.Args) < 3 {
 					return true
 				}
@@ -209,7 +244,9 @@ func c18Extract(out string) int {
 				case strings.Contains(format, "(Line:%d Pos:%d)"):
 					v, d := c18Pair(a1, a2, ".Line", ".Pos")
 					if v != 0 {
-						v, d = c18Pair(a1, a2, ".Lline", ".Lpos")
+						if v2, d2 := c18Pair(a1, a2, ".Lline", ".Lpos"); v2 == 0 {
+							v, d = v2, d2
+						}
 					}
 					mk := 5
 					if fi.pkg == "parser" && fn == "Error.Error" {
@@ -221,17 +258,15 @@ func c18Extract(out string) int {
 				case strings.HasSuffix(format, "(%v:%v)") && fn == "RuntimeError.GetTraceString":
 					v, d := c18Pair(a2, a1, ".Token.Lline", ".Token.Lsource")
 					add(6, "stack trace entry in "+fi.pkg+"."+fn, v, d)
-				case format == "%v:%v" && strings.HasPrefix(fn, "ecalDebugger."):
-					if fn == "ecalDebugger.VisitState" {
-						v, d := c18Pair(a2, a1, ".Token.Lline", ".Token.Lsource")
-						add(7, "break point key in "+fi.pkg+"."+fn, v, d)
-					} else {
-						v := 1
-						if a1 == "source" && a2 == "line" {
+				case format == "%v:%v" && fi.pkg == "interpreter" && !strings.HasSuffix(a1, ".Token.Lsource"):
+					// the key built from what the caller of SetBreakPoint & co. hands in
+					v := 2
+					if _, ok1 := x.Args[1].(*ast.Ident); ok1 {
+						if _, ok2 := x.Args[2].(*ast.Ident); ok2 {
 							v = 0
 						}
-						add(8, "break point key in "+fi.pkg+"."+fn, v, a1+" / "+a2)
 					}
+					add(8, "break point key in "+fi.pkg+"."+fn, v, a1+" / "+a2)
 				}
 			case *ast.AssignStmt:
 				if len(x.Lhs) != 1 || len(x.Rhs) != 1 {
